@@ -6,9 +6,10 @@ An interpreter for the statement skeletons of the reading side of ansi/parser.go
 `Props.C02Text.readRune_body_eq_model` / `print_body_eq_model` prove that interpreting the bodies
 regenerated from the source on this run gives exactly the model functions `ParserIO.readRune` /
 `ParserIO.printLoop` (which every theorem about the reading side is stated over), for every reader
-state; so the statements are not only pinned but *executed*: a change of the statement order, of a
-condition or of a `break` that changes the meaning breaks the theorem, one that does not (a moved
-`Stop()` of the timer) leaves it intact.
+state; so the statements are not only pinned but *executed*: the correspondence driver runs
+`runChunksI` on the regenerated bodies (`reader_interpreted_eq_model`: = `ParserIO.runChunks`), so a
+source change that alters the meaning shows in the correspondence run with whatever was extracted,
+and the theorems (proved through the transcribed skeleton) flag any change of the statement list.
 
 bufio is modelled as far as these two functions use it: `ReadRune` (fill loop + `utf8.DecodeRune`,
 `ParserIO.Rd.fill` / `decodeRune`), `UnreadRune` (allowed once after a `ReadRune`: the reader
